@@ -77,8 +77,6 @@ def e2e_case(rng):
                        p_annot=0.6, annot_fn=lambda r: A.random_annotation(r, 'base'), max_mult=4)
     nodes, edges = G.denote(ast)
     feats = G.features(ast)
-    if feats & {'double_close', 'bond_after_node_mult'}:
-        return None
     uses = {}
     for nd in nodes:
         uses[nd['name']] = uses.get(nd['name'], 0) + 1
